@@ -30,8 +30,24 @@ def _run(tier, seed, only=None):
     extra = {'VERIF_C04_ONLY': only} if only else None
     path, rc, out = core.run_harness(binp, 'TestVerifC04', tier, seed, extra_env=extra, timeout=1700)
     if rc != 0:
+        cur = path + '.cur'
+        if 'panic:' in out and os.path.exists(cur):
+            raise Crash(open(cur).read().strip(), out[out.index('panic:'):][:1500])
         raise RuntimeError('harness run failed rc=%d:\n%s' % (rc, out[-3000:]))
     return core.read_cases(path)
+
+
+class Crash(Exception):
+    def __init__(self, tag, text):
+        Exception.__init__(self, tag)
+        self.tag, self.text = tag, text
+
+
+def crashed(res, c):
+    res.count('process-crash')
+    res.violation(c.tag, 'session %s: a panic escaped a goroutine of the client and ended the process (a panicking handler must not end '
+                  'the connection): %s' % (c.tag, c.text[:300].replace('\n', ' | ')), 'history', True,
+                  case=['c04-crash #' + c.tag], expected=['the loop keeps serving'], observed=[c.text])
 
 
 def tag_of(r):
@@ -68,7 +84,10 @@ def judge(res, reqs, obs):
 
 
 def correspond(res, tier, seed):
-    reqs, obs = _run(tier, seed)
+    try:
+        reqs, obs = _run(tier, seed)
+    except Crash as c:
+        return crashed(res, c)
     exp = judge(res, reqs, obs)
     n = len(reqs)
     res.samples = [dict(request=reqs[i][:300], oracle=exp[i][:300], observed=obs[i][:300]) for i in (0, n // 5, n // 3, n // 2, 2 * n // 3, n - 1) if 0 <= i < n]
@@ -80,6 +99,9 @@ def correspond(res, tier, seed):
 def replay(res, path):
     body = json.load(open(path))
     tag = body.get('key')
-    reqs, obs = _run(body.get('tier', 'quick'), body.get('seed', 1), only=tag)
+    try:
+        reqs, obs = _run(body.get('tier', 'quick'), body.get('seed', 1), only=tag)
+    except Crash as c:
+        return crashed(res, c)
     judge(res, reqs, obs)
     res.samples = [dict(request=r[:300], observed=o[:300]) for r, o in zip(reqs, obs)]
